@@ -84,6 +84,24 @@ def run(v, O):
     out = [('a-b power difference', O.eq(d.value(), v.scale * O.log10(p(v.a) - p(v.b)))), ('a-b units', O.same(d.units(), v.w))]
     return out
 '''
+MIX_SRC = '''
+def run(v, O):
+    # two levels of the same bel-type unit written with different prefixes: the right operand is taken over into the left one's prefix
+    pa = O.pow(10, v.a / v.s1)
+    pb = O.pow(10, v.b / v.s2)
+    s = Quantity(v.a, v.w1) + Quantity(v.b, v.w2)
+    out = [('a+b power sum (mixed prefixes)', O.eq(s.value(), v.s1 * O.log10(pa + pb))), ('a+b units', O.same(s.units(), v.w1))]
+    if v.sub:
+        d = Quantity(v.a, v.w1) - Quantity(v.b, v.w2)
+        out += [('a-b power difference (mixed prefixes)', O.eq(d.value(), v.s1 * O.log10(pa - pb))), ('a-b units', O.same(d.units(), v.w1))]
+    return out
+'''
+RT_SRC = '''
+def run(v, O):
+    out = [('there and back returns the original level', O.eq(Quantity(v.y, v.w1).to(v.w2).to(v.w1).value(), v.y, 1e-9)),
+           ('value() there and back', O.eq(Quantity(Quantity(v.y, v.w1).value(v.w2), v.w2).value(v.w1), v.y, 1e-9))]
+    return out
+'''
 # (linear unit, factor k, reference level in that unit) per logarithmic base unit  -- from the documented definitions
 DEFS = {
     'Bm': [('W', 1, 1e-3)], 'BmW': [('W', 1, 1e-3)], 'BW': [('W', 1, 1.0)], 'BV': [('V', 2, 1.0)], 'BuV': [('V', 2, 1e-6)],
@@ -149,6 +167,14 @@ def scenarios(tier, seed):
                               what=f'level addition in {wp}{w}', samples=2))
             S.append(Scenario(f'sub/{wp}{w}', SUB_SRC, {'a': 'real', 'b': 'real'}, ['v.a > v.b'], consts={'w': wp + w, 'scale': wscale}, preamble=PRE,
                               what=f'level subtraction in {wp}{w}', samples=2))
+    for w in list(DEFS):
+        for (p1, s1), (p2, s2) in ((('d', 10.0), ('', 1.0)), (('', 1.0), ('d', 10.0))):
+            # a/s1 > b/s2 keeps the difference of powers positive
+            S.append(Scenario(f'mixed/{p1}{w}|{p2}{w}', MIX_SRC, {'a': 'real', 'b': 'real'}, [f'v.a * {s2} > v.b * {s1}'],
+                              consts={'w1': p1 + w, 'w2': p2 + w, 's1': s1, 's2': s2, 'sub': True}, preamble=PRE,
+                              what=f'level addition/subtraction {p1}{w} with {p2}{w}', samples=2))
+    for w1, w2 in (('B', 'Np'), ('Np', 'B'), ('dB', 'Np'), ('dB', 'cNp'), ('cNp', 'dB'), ('dNp', 'B'), ('B', 'dNp')):
+        S.append(Scenario(f'roundtrip/{w1}<->{w2}', RT_SRC, {'y': 'real'}, consts={'w1': w1, 'w2': w2}, preamble=PRE, what=f'level conversion {w1} -> {w2} -> {w1}', samples=2))
     S.append(Scenario('canary/temp', TEMP_SRC, {'x': 'real'}, ['v.x >= 0'], consts={'u': 'Cel', 'w': 'degR'}, preamble=PRE.replace('273.15', '273.25'), canary=True))
     S.append(Scenario('canary/log', LOG_SRC, R2, ['v.x > 0'], consts={'u': 'W', 'w': 'dBm', 'k': 2, 'ref': 1e-3, 'scale': 10.0, 'kind': 'log10'}, preamble=PRE, canary=True))
     S.append(Scenario('canary/add', ADD_SRC, {'a': 'real', 'b': 'real'}, consts={'w': 'dBm', 'scale': 20.0}, preamble=PRE, canary=True))
